@@ -123,7 +123,7 @@ def random_key_walk(rng, cfg, length, note_keys, action_keys, p_action=0.15, exi
 def random_keys(seed, tier):
     """Factory keyboard configuration (4 mappings, ~100 keys), all four collision modes."""
     rng = random.Random(seed * 7919 + 17)
-    n_walks, length = (40, 250) if tier == "quick" else (400, 600)
+    n_walks, length = (40, 250) if tier == "quick" else (200, 400)
     batches = []
     for mode in ["off", "no_repeat", "interrupt", "retrigger"]:
         cfg = factory_keyboard_cfg(mode)
@@ -382,21 +382,26 @@ def c05_batches(seed, tier):
     ccs = [0, 119, 120, 127]
     combos = []
     for ch in chans:
-        combos.append((ch, 64, 15, 15, 119))
+        combos.append((ch, 64, 15, 15, 119, 118))
     for v in vels:
-        combos.append((1, v, 0, 0, 0))
+        combos.append((1, v, 0, 0, 0, 1))
     for ao in aoffs:
         for cc in ccs:
-            combos.append((16, 127, 15, ao, cc))
+            combos.append((16, 127, 15, ao, cc, cc + 1 if cc < 119 else cc - 1))
+    # the negative controller / negative note on their own: valid positive side, boundary negative side
+    for ccn in (0, 119, 120, 127, 128, 200, 255, 256, 300, -1):
+        combos.append((1, 64, 0, 0, 5, ccn))
+        combos.append((16, 64, 0, 15, 119, ccn))
     if tier == "thorough":
         for _ in range(60):
-            combos.append((rng.choice(chans), rng.choice(vels), rng.choice(koffs), rng.choice(aoffs), rng.choice(ccs)))
-    for ch, vel, ko, ao, cc in combos:
+            combos.append((rng.choice(chans), rng.choice(vels), rng.choice(koffs), rng.choice(aoffs), rng.choice(ccs),
+                           rng.choice([0, 119, 120, 128, 255, 256])))
+    for ch, vel, ko, ao, cc, ccn in combos:
         ax = {
-            "ABS_X": axis("cc", cc=cc, ccNeg=cc + 1 if cc < 119 else cc - 1, off=ao, offNeg=ao, bidi=True, dzn=1, dzd=20),
+            "ABS_X": axis("cc", cc=cc, ccNeg=ccn, off=ao, offNeg=ao, bidi=True, dzn=1, dzd=20),
             "ABS_Y": axis("pitch_bend", off=ao, flip=True, dzn=1, dzd=10),
             "ABS_Z": axis("cc", cc=cc, off=ao, centre=True, dzn=1, dzd=2),
-            "ABS_RX": axis("key", note=127, noteNeg=0, off=ao, offNeg=ao, bidi=True, dzn=0, dzd=1),
+            "ABS_RX": axis("key", note=127, noteNeg=ccn if 0 <= ccn <= 300 else 0, off=ao, offNeg=ao, bidi=True, dzn=0, dzd=1),
             "ABS_RZ": axis("cc", cc=cc, off=ao, flip=True, dzn=99, dzd=100),
         }
         info = {"ABS_X": {"min": -128, "max": 127}, "ABS_Y": {"min": -32768, "max": 32767}, "ABS_Z": {"min": 0, "max": 255},
